@@ -58,6 +58,15 @@ CHECKS = {
    "model-based testing of open modes (enumerated) + crash-point fault injection (SIGKILL of a child process at generated points, prefix/acknowledgement oracle)",
    "All 54 combinations of mode x initial file state x sink kind are enumerated against a model of the documented modes; a child process streams seeded data through the sink and acknowledges consumed counts after every work(); it is SIGKILLed after a generated number of acknowledgements plus a generated spin, and the file must be a prefix of the serialised stream at least as long as what was acknowledged.",
    "process death, not power loss; root user (structural instead of permission-based failures); kill instants sampled, oracle valid for any instant", "DESIGN.md §5 C17"),
+
+ "C03": ("E4 schedule explorer", "exploration",
+   "schedule-exploring property testing (generated scenario + generated scheduler decision stream on the shuttle runtime via the verif sync shim; history invariant; shrinking over schedule and scenario) + real-thread stress",
+   "A harness producer and consumer share a 1-2 page stream through the public API while every lock/unlock/timed-wait/notify/drop is a scheduling point decided by generated bytes; the consumer must see exactly the committed sequence and tags, and every window acquisition is checked for disjointness from the other side's live windows in ring coordinates; a real two-thread run moves 4e5 (thorough 2e7) samples through a 1-page stream.",
+   "sequential consistency at critical-section granularity; weak memory only sampled by the real-thread run on x86", "DESIGN.md §5 C03"),
+ "C04": ("E4 schedule explorer", "exploration",
+   "schedule-exploring property testing of the wait/eof verdicts (generated scenario + decision stream; verdict soundness and bounded-arrival oracle)",
+   "Reader-waits, writer-waits and packet-stream scenarios with a peer that commits and leaves are executed under generated schedules in which wait timeouts fire after 0-3 yields; a 'never'/eof verdict must imply peer gone and insufficient data (checked right after, which is valid because a gone peer cannot add data), all committed data must be read back, and a call that starts after the facts are settled must deliver the verdict.",
+   "sequential consistency; timed waits modelled as bounded yields", "DESIGN.md §5 C04"),
 }
 
 NOT_YET = {}
@@ -100,6 +109,8 @@ def main():
             {"name": "E2 drip-feed driver", "path": "harness/src/drip.rs, harness/src/catalog.rs, harness/src/dripcase.rs",
              "serves_properties": ["C08", "C09", "C10", "C12", "C13", "C16", "C19"],
              "kind_free_text": "plays both neighbours of one block on small streams; generated feed/free/work schedules; per-call observations"},
+            {"name": "E4 schedule explorer", "path": "harness/src/sched.rs (+ /repo src/verif.rs shim)", "serves_properties": ["C03", "C04", "C05", "C07"],
+             "kind_free_text": "shuttle coroutine runtime with a custom scheduler fed by a proptest-generated decision stream; fair continuation; lock/unlock/wait/notify/spawn/join/sleep/drop are scheduling points"},
             {"name": "E6 OS fault harness", "path": "harness/src/osfault.rs", "serves_properties": ["C17", "C18"],
              "kind_free_text": "/proc readers; the harness binary re-executes itself in child modes (rlimit, mapcount, sink) for rlimits, map-count exhaustion and SIGKILL"},
             {"name": "E3 reference models", "path": "harness/src/refmodel.rs", "serves_properties": ["C10", "C11", "C13", "C14", "C20"],
